@@ -173,6 +173,11 @@ def run(ck, prog):
 
     rule_recursion(ck, prog, cg, reach)
     rule_loops(ck, prog, reach)
+    # work that is bounded per file must be done once per file: the include descent is guarded by a visited set that
+    # never shrinks (a set of the files *currently being* indexed re-indexes a shared file once per path: 2^k for k layers)
+    from .c16 import descent_guard
+    ck.rule("R03.4", "the indexer descends into each included file once (no exponential re-indexing)")
+    descent_guard(ck, prog, cg, "R03.4")
 
 
 # --------------------------------------------------------------------------------------------
